@@ -84,6 +84,10 @@ func genHeight(t *rapid.T, withFaults bool) Height {
 		n = 1
 	default:
 		n = rapid.IntRange(2, 5).Draw(t, "ntx")
+		if rapid.IntRange(0, 24).Draw(t, "crowded") == 0 {
+			// a crowded DA height: more blobs than one chunk of ids (the DA client fetches 100 ids at a time)
+			n = rapid.IntRange(101, 260).Draw(t, "ncrowd")
+		}
 	}
 	for i := 0; i < n; i++ {
 		var x Tx
